@@ -4,7 +4,7 @@ For every function under the frame contract, every statement is an obligation: i
 (or call a mutator on) a value that may alias the tracks object or a part of it.  Aliasing is tracked
 conservatively by a flow-insensitive may-alias set seeded with the `tracks`/`self` parameter: a local
 becomes tainted when it is assigned from an expression that mentions a tainted name, unless the
-expression is a *fresh-result* call (copy(), list(), dict(), np.asarray(), comprehension building new
+expression is a *fresh-result* call (copy(), list(), dict(), np.array(), comprehension building new
 containers of scalars ...).  Calls into other repository functions with a tainted argument are followed
 (interprocedurally, by parameter position); calls into third-party code with a tainted argument are
 assumed read-only and listed as assumptions.
